@@ -183,6 +183,7 @@ def check(ctx):
     ctx.need(nover >= 10, "fewer than 10 overrides of builtin methods found in the proxies")
     check_star_params(ctx)
     check_repetition(ctx)
+    check_single_pass(ctx)
 
 
 def check_star_params(ctx):
@@ -278,3 +279,74 @@ def check_repetition(ctx):
                "start=%d, range(n%+d): n repetitions for n >= 1 and none for n <= 0, like the builtin" % (start, c) if ok else
                ("the result holds %d + max(0, n%+d) copies of the items; the builtin holds max(0, n): %s" % (
                    start, c, "wrong for n <= 0 (list * 0 is empty)" if ok_pos else "wrong for positive counts")))
+
+
+def check_single_pass(ctx):
+    """An argument that may be a one-shot iterable (generator, zip, map, iterator) is traversed at most once on any path:
+    a second traversal sees nothing, so `update(zip(keys, values))` would silently add nothing."""
+    an, model = ctx.an, ctx.model
+    targets = []
+    for fn in an.fns():
+        if fn.module.short not in ("fields.list_field", "fields.dict_field"):
+            continue
+        for a in fn.params:
+            ann = ast.unparse(a.annotation) if a.annotation is not None else ""
+            if a.arg != fn.self_name and ("Iterable" in ann or "KeyValuePairs" in ann or "Iterator" in ann or (not ann and a.arg in ("iterable", "pairs"))):
+                targets.append((fn, a.arg))
+    n = 0
+    for fn, p in targets:
+        g = an.cfg(fn)
+        from engine.defuse import reaching_defs
+        rd = reaching_defs(fn)
+
+        def is_p(e, at):
+            if not isinstance(e, ast.Name):
+                return False
+            ds = rd.reaching(at, e.id)
+            return e.id == p and bool(ds) and all(d.kind == "param" for d in ds)
+
+        def consumes(nd):
+            a_ = nd.ast
+            if nd.kind == "for_iter":
+                it = a_.iter if isinstance(a_, (ast.For, ast.comprehension)) else None
+                if it is None:
+                    return False
+                if is_p(it, nd):
+                    return True
+                if isinstance(it, ast.Call) and isinstance(it.func, ast.Name) and it.func.id in ("enumerate", "zip", "iter", "reversed", "map", "filter") \
+                        and any(is_p(x, nd) for x in it.args):
+                    return True
+                return False
+            if nd.kind == "call" and isinstance(a_.func, ast.Name) and a_.func.id in ("list", "tuple", "dict", "set", "sorted", "sum", "max", "min", "any", "all", "frozenset") \
+                    and a_.args and is_p(a_.args[0], nd):
+                return True
+            if nd.kind == "call" and isinstance(a_.func, ast.Attribute) and a_.func.attr in ("extend", "update", "__init__", "__iadd__", "__ior__", "join") \
+                    and a_.args and is_p(a_.args[-1], nd):
+                return True
+            return False
+        sites = [nd for nd in g.nodes if nd.ast is not None and consumes(nd)]
+        n += 1
+        ftp = an.ft(fn)
+
+        def reiterable_edge(a, b, lbl):
+            # under isinstance(p, <dict / list / tuple / proxy>) the argument can be traversed again
+            if a.kind == "test" and lbl is True and isinstance(a.ast, ast.Call) and isinstance(a.ast.func, ast.Name) and a.ast.func.id == "isinstance" \
+                    and len(a.ast.args) == 2 and isinstance(a.ast.args[0], ast.Name) and a.ast.args[0].id == p:
+                return False
+            return True
+        bad = None
+        for s1 in sites:
+            for s2 in sites:
+                if s1 is s2 and s1.kind != "for_iter":
+                    continue
+                if s1 is s2:
+                    continue
+                pth_ = g.path(s1, lambda x, s2=s2: x is s2, may_raise=lambda x: False, from_successors=True, edge_filter=reiterable_edge)
+                # both must lie on one path from the entry that does not take a "re-iterable" edge
+                if pth_ is not None and g.path(g.entry, lambda x, s1=s1: x is s1, may_raise=lambda x: False, edge_filter=reiterable_edge) is not None:
+                    bad = (s1, s2)
+        ctx.ob("iterable.single-pass", fn, "parameter %s" % p, bad is None,
+               "traversed at most once on every path (one-shot iterables work)" if bad is None else
+               "%s traverses its argument `%s` twice (line %s and line %s): a generator / zip / iterator is exhausted by the first pass and the "
+               "second sees nothing" % (fn.qualname, p, bad[0].lineno, bad[1].lineno), nontrivial=bad is not None or bool(sites))
+    ctx.need(n >= 3, "fewer than 3 iterable-taking functions found in the proxy modules")
